@@ -1264,6 +1264,32 @@ def op_x_c16(req):
                         fails.append(["odd-header|%s|field|%s" % (field, k), "co%d %s with %s=%d: %s differs after round trip: %s -> %s" % (
                             i, co.co_name, field, getattr(odd, field), k, json.dumps(a2.get(k))[:120], json.dumps(b2.get(k))[:120])])
                         break
+        # replace() with several fields at once: every one of them is set, nothing else changes
+        try:
+            b4 = _portable_dump(p)
+            q3 = p.replace(co_name="renamed3", co_filename="other3.py", co_firstlineno=777)
+            qd3 = _portable_dump(q3)
+            want3 = {"co_name": xcanon("renamed3", False), "co_filename": xcanon("other3.py", False), "co_firstlineno": xcanon(777, False)}
+            for k3, v3 in sorted(want3.items()):
+                if qd3.get(k3) != v3:
+                    fails.append(["replace-several-fields|%s" % k3, "co%d: replace(co_name=, co_filename=, co_firstlineno=) left %s = %s" % (i, k3, qd3.get(k3))])
+                    break
+            for k3 in b4:
+                if k3 not in want3 and qd3.get(k3) != b4[k3]:
+                    fails.append(["replace-several-fields|other|%s" % k3, "co%d: replace of three fields changed %s" % (i, k3)])
+                    break
+            if _portable_dump(p) != b4:
+                fails.append(["replace-mutates-original|several", "co%d: original changed by a replace() of three fields" % i])
+            # a portable object holding its tables in their documented MUTABLE forms (lists): replace() must leave it alone
+            pl = p.replace(co_consts=list(p.co_consts), co_names=list(p.co_names), co_varnames=list(p.co_varnames))
+            kinds_before = (type(pl.co_consts), type(pl.co_names), type(pl.co_varnames), type(getattr(pl, "co_lnotab", None)))
+            pl.replace(co_name="x")
+            kinds_after = (type(pl.co_consts), type(pl.co_names), type(pl.co_varnames), type(getattr(pl, "co_lnotab", None)))
+            if kinds_before != kinds_after or kinds_before[0] is not list:
+                fails.append(["replace-mutates-original|list-fields", "co%d: an object holding list-typed tables was altered by replace(): %s -> %s" % (
+                    i, [t_.__name__ for t_ in kinds_before], [t_.__name__ for t_ in kinds_after])])
+        except Exception as e:
+            fails.append(["replace-several-fields|raised|%s" % type(e).__name__, "co%d: %s" % (i, e)])
         # replace()
         try:
             if p.replace() is p or p.replace(co_name=p.co_name) is p:
